@@ -108,6 +108,22 @@ CHECKS = {
    design_ref="3/C17"),
 }
 
+# later additions per check (appended to the text above)
+EXTRA = {
+ "C03": " CFI rule files also assign to names one letter away from a real register.",
+ "C06": " Rules that read the last word of the captured stack and the word just past it are part of the alphabet.",
+ "C07": " Programs that leave $eip without a value, and .raSearchStart next to .raSearch, are part of the program menus.",
+ "C10": " Test lines are PUBLIC records (a dropped or duplicated line shows in the table); the empty input and a lone newline; at the real constants a long line, a swept filler (134 sizes) and a second long line.",
+ "C12": " Supplier answers also include the two other failure kinds (no usable identifiers, I/O error).",
+ "C13": " Further inputs: 32-bit ARM scanned frames whose stale words point into a module first asked for mid-scan; a dump whose process creation time lies after its time stamp, processed again 1.1 s later.",
+ "C14": " Process ids up to 2^32-1; EXC_RESOURCE / EXC_GUARD records with fewer parameters than the decoder reads.",
+ "C15": " macOS crash-info records of every format version (num_records = length of records).",
+ "C16": " A directory where the cache entry would go; name-collision scenarios use one connection per request.",
+ "C17": " The symbol directory also holds a server's index files and has '..x' decoys beside it; strings over characters whose case mapping yields ASCII.",
+ "C19": " 32-bit MIPS, SPARC and PPC are among the CPUs on which nothing may be reported.",
+ "C20": " A symbols path with a comma and a blank in it.",
+}
+
 ALL = ["C%02d" % i for i in range(1, 21)]
 REASONS = {}
 
@@ -123,7 +139,7 @@ def main():
             "evidence_file": f"/verif/evidence/{pid}.json",
             "replay_cmd_template": f"./check replay {pid} {{path}}",
             "engine": c["engine"],
-            "level_claimed": {"category": c["level"], "text": c["text"], "design_ref": c["design_ref"]},
+            "level_claimed": {"category": c["level"], "text": c["text"] + EXTRA.get(pid, ""), "design_ref": c["design_ref"]},
             "level_note": c["note"],
             "technique": c["technique"],
         })
